@@ -54,10 +54,15 @@ ClosedSeq(xs) == [i \in 1..Len(xs) |-> Closed(xs[i])]
 ClosedSer(sr) == [i \in 1..Len(sr) |-> [sr[i] EXCEPT !.o = Closed(sr[i].o)]]
 OpenEndClass(xs, sr) == (\E i \in 1..Len(xs) : xs[i].lox \/ xs[i].hix) \/ (\E i \in 1..Len(sr) : sr[i].o.lox \/ sr[i].o.hix)
 
+\* D_C04_size_level_setop: a union or EXCEPT written *between* SIZE constraints, (SIZE(a) | SIZE(b)), (SIZE(a) EXCEPT SIZE(b)),
+\*   is folded as a value constraint: no size annotation comes out of it (an intersection is folded as sizes)
+SizeLevelClass(e) == e.outer_size /\ \E j \in 1..Len(e.ps) : e.ps[j] \in {"u", "x"}
+
 CodeEff(D, e, nn) ==
     LET xs == IF "D_C04_open_end" \in D THEN ClosedSeq(e.os) ELSE e.os
         sr == IF "D_C04_open_end" \in D THEN ClosedSer(e.ser) ELSE e.ser
-    IN IF "D_C04_fold" \in D
+    IN IF "D_C04_size_level_setop" \in D THEN P!EffSerial(Full(nn), sr, 1, nn)
+       ELSE IF "D_C04_fold" \in D
        THEN P!EffSerial(CodeFold(xs, e.ps, 1, nn), sr, 1, nn)
        ELSE P!Eff(xs, e.ps, sr, nn)
 
@@ -83,7 +88,8 @@ Applicable(D, e, nn) ==
     /\ "D_C04_ext_unbounded" \in D => \/ (e.ext /\ FirstFull(D, e, nn))
                                        \/ \E j \in 1..Len(e.ser) : e.ser[j].ext /\ P!OpInt(e.ser[j].o, FALSE) = Full(FALSE)
     /\ "D_C04_ext_except" \in D => (e.ext /\ LastIsExcept(e))
-AllDevs == {"D_C04_fold", "D_C04_open_end", "D_C04_ext_unbounded", "D_C04_ext_except"}
+    /\ "D_C04_size_level_setop" \in D => SizeLevelClass(e)
+AllDevs == {"D_C04_fold", "D_C04_open_end", "D_C04_ext_unbounded", "D_C04_ext_except", "D_C04_size_level_setop"}
 
 Explains(D, e, nn, obs, flag) == Applicable(D, e, nn) /\ obs = CodeEff(D, e, nn) /\ CodeFlagOK(D, e, nn, flag)
 
@@ -101,6 +107,10 @@ Judge(e, i) ==
           expl == {S \in SUBSET AllDevs : Explains(S, e, nn, obs, flag)}
       IN
       IF {} \in expl THEN TRUE
+      \* an operand spelled as contained subtype (INCLUDES T): the property lists what the emitted bound must resolve -- value
+      \* references, named numbers, constrained parent types -- and contained subtypes are not among it; what remains is that
+      \* the bound never excludes a permitted value and is extensible only with a marker
+      ELSE IF e.contained /\ D \subseteq P!InWin(obs, nn) /\ (flag => AnyMarker(e)) THEN TRUE
       ELSE IF expl # {} THEN
            LET S == CHOOSE S \in expl : \A S2 \in expl : Cardinality(S) <= Cardinality(S2)
            IN \A d \in S : IF d \in KnownDevs THEN Report(i, "DEVIATION", d)
